@@ -108,9 +108,13 @@ package slog
 //@   at call (io.Writer).Write assert [C06.reset-seq] len(callee.p) == 4 && callee.p[0] == 27 && callee.p[1] == 91 && callee.p[2] == 48 && callee.p[3] == 109
 
 //@ func (*Entry).printTimestamp
-//@   props C02 C06
+//@   props C02 C06 C16
 //@   auto
 //@   nokeeps ghost.ioColor
+//@   at call (*PrintCtx).appendTimestamp assert [C16.instant] callee.s == pc && callee.z == pc.now
+//@   at maybe-call (*PrintCtx).appendTime assert [C16.stamp-only] false
+//@   at maybe-call (time.Time).AppendFormat assert [C16.stamp-only] false
+//@   at maybe-call (time.Time).Format assert [C16.stamp-only] false
 
 // the caller is the last thing on the first line: it leaves no colour on
 //@ func (*Entry).printPC
